@@ -34,6 +34,7 @@
 #include <tbox/base/catch_throw.h>
 #include <tbox/base/object_pool.hpp>
 #include <tbox/base/assert.h>
+#include <tbox/base/verif_point.h>
 #include <tbox/base/wrapped_recorder.h>
 #include <tbox/event/loop.h>
 
@@ -124,6 +125,7 @@ WorkThread::TaskToken WorkThread::execute(NonReturnFunc &&backend_task, NonRetur
     }
 
     LogDbg("create task %u", token.id());
+    TBOX_VERIF_POINT("WorkThread.execute_before_notify");
     d_->cond_var.notify_one();
 
     return token;
@@ -214,6 +216,7 @@ void WorkThread::threadProc()
             item = popOneTask();    //! 从任务队列中取出优先级最高的任务
         }
 
+        TBOX_VERIF_POINT("WorkThread.after_pop");
         //! 后面就是去执行任务，不需要再加锁了
         if (item != nullptr) {
             RECORD_SCOPE();
@@ -285,6 +288,7 @@ void WorkThread::cleanup()
         }
     }
 
+    TBOX_VERIF_POINT("WorkThread.cleanup_before_stop_flag");
     d_->stop_flag = true;
     d_->cond_var.notify_all();
 
